@@ -680,6 +680,12 @@ func TestVerif_C01_replay(t *testing.T) {
 				s.Count(proto + ":prime-failed")
 				continue
 			}
+			if err != nil && len(accepted) == 0 && len(fired) == 0 && (strings.Contains(err.Error(), "dial tcp") || strings.Contains(err.Error(), "cannot assign requested address")) {
+				// the loopback dial itself failed (ephemeral ports exhausted on a busy machine):
+				// not a verdict on the code
+				s.Count(proto + ":skipped:dial-error")
+				continue
+			}
 			replayed := len(fired) > 0 && success
 			class := ""
 			if !ok && c01OneShotKinds[tc.bodyKind] && len(fired) > 0 {
